@@ -403,6 +403,7 @@ def run(prop, res, tier, seed):
         res.add_broken(b.what, b.detail)
         if not os.path.exists(common.DRIVER_BIN):
             return
+    replay_known(res, prop)
     run_c05(res, tier, seed, want_c18=(prop == "C18"))
     if prop == "C18":
         run_dot_completion(res, tier, seed)
@@ -415,6 +416,45 @@ def run(prop, res, tier, seed):
         rq, a, b = res.disagreements[0]
         res.add_broken("correspondence model-vs-implementation (M-scope vs go-to-definition/completion)",
                        f"{len(res.disagreements)} disagreeing cases; first: {rq} impl={a!r} model={b!r}")
+
+
+class FilesOnly:
+    """a workspace given by its files alone (a recorded example)"""
+    def __init__(self, files):
+        self.files = [(f["path"], f["text"]) for f in files]
+
+
+def replay_known(res, prop):
+    """The recorded findings' own inputs are replayed on every run, before anything is generated: a finding whose
+    example still fails is printed as KNOWN-FINDING whatever the seed; one that stops failing is not."""
+    todo = []
+    for f in common.known_findings().get("findings", []):
+        ex = (f.get("example") or {}).get("input")
+        if f.get("property") == prop and isinstance(ex, dict) and "files" in ex and "query" in ex and "expected" in ex:
+            if ex["query"].split("\t")[0] in ("goto", "complete"):
+                todo.append((f, ex))
+    if not todo:
+        return
+    answers = run_workspaces([(FilesOnly(ex["files"]), [ex["query"]]) for _, ex in todo])
+    res.cov["evaluations"] += len(todo)
+    for (f, ex), ans in zip(todo, answers):
+        a = ans[0]
+        kind = ex["query"].split("\t")[0]
+        if kind == "goto":
+            t = parse_target(a)
+            got = None if t is None else [t[0], t[1]]
+            exp = None if ex["expected"] is None else list(ex["expected"])[:2]
+            if got != exp:
+                res.add_violation(f["key"], f"recorded example: go-to-definition lands on {got}, Gleam binds the name to {exp}", dict(ex, impl=a[:300]))
+        else:
+            got = set()
+            if a not in ("none", "empty") and not a.startswith("PANIC"):
+                for it in a.split(";"):
+                    parts = it.split("|")
+                    if len(parts) >= 2 and parts[1] != "Keyword":
+                        got.add(parts[0])
+            if got != set(ex["expected"]):
+                res.add_violation(f["key"], f"recorded example: completion offers {sorted(got)}; visible: {sorted(ex['expected'])}", dict(ex, impl=a[:300]))
 
 
 def replay(prop, path):
